@@ -63,7 +63,14 @@ Effects(pr, s, w, scope) ==
 
 \* a candidate is <<rule, warp, scope>>; it matches when its scope node exists
 Matches(c, s) == HasWarp(s, c[2]) /\ NKey(c[2], c[3]) \in DOMAIN s.node
-CandFP(c)     == DeclaredFP(Prog[c[1]], c[2], c[3])
+
+\* Stage B1 law (Engine::apply_in_warp, descent_stack): a rewrite inside a descended instance READS
+\* every portal attachment on the chain from the root instance down to its own instance.
+RECURSIVE DescentOf(_, _)
+DescentOf(s, w) == IF ~HasWarp(s, w) \/ s.inst[w].parent = None THEN {}
+                   ELSE {s.inst[w].parent} \cup DescentOf(s, s.inst[w].parent[2])
+WithDescent(f, s, w) == [f EXCEPT !.ar = @ \cup DescentOf(s, w)]
+CandFP(c, s)  == WithDescent(DeclaredFP(Prog[c[1]], c[2], c[3]), s, c[2])
 CandOps(c, s) == Effects(Prog[c[1]], s, c[2], c[3])
 
 (***************************************************************************)
@@ -82,7 +89,7 @@ OutSlots(F) == UNION {f.nw : f \in F} \cup UNION {f.ew : f \in F} \cup UNION {f.
 
 TickOracle(pre, S) ==
   LET order == DrainOrder(S)
-      fps   == [k \in 1..Len(order) |-> CandFP(order[k])]
+      fps   == [k \in 1..Len(order) |-> CandFP(order[k], pre)]
       acc   == GreedyAdmit(fps)
       accepted == {order[k] : k \in {x \in 1..Len(order) : acc[x]}}
       ops   == UNION {CandOps(c, pre) : c \in accepted}
@@ -91,7 +98,7 @@ TickOracle(pre, S) ==
       blockers |-> [k \in 1..Len(order) |-> IF acc[k] THEN {} ELSE Blockers(fps, acc, k)],
       accepted |-> accepted, ok |-> r.ok,
       post |-> IF r.ok THEN r.s ELSE pre,
-      inSlots |-> InSlots({CandFP(c) : c \in accepted}), outSlots |-> OutSlots({CandFP(c) : c \in accepted})]
+      inSlots |-> InSlots({CandFP(c, pre) : c \in accepted}), outSlots |-> OutSlots({CandFP(c, pre) : c \in accepted})]
 
 (***************************************************************************)
 (* Serial semantics: accepted rewrites executed one after another, each     *)
